@@ -29,6 +29,7 @@ from lib.detloop import DetLoop
 
 
 import signal
+import sys
 import warnings
 
 warnings.filterwarnings('ignore', message='coroutine .* was never awaited')
@@ -49,6 +50,28 @@ def _on_alarm(signum, frame):
 
 
 signal.signal(signal.SIGALRM, _on_alarm)
+
+
+_TICK_LINES = {}
+
+
+def _tick_source():
+    """line number -> stripped source text of Pool._tick (of the code that is actually loaded)"""
+    import inspect as _insp
+    code = pool_impl.Pool._tick.__code__
+    key = id(code)
+    if key not in _TICK_LINES:
+        _TICK_LINES.clear()
+        try:
+            src, start = _insp.getsourcelines(pool_impl.Pool._tick)
+        except (OSError, TypeError):
+            src, start = [], code.co_firstlineno
+        if not src and hasattr(pool_impl, '__mut_source__'):
+            allsrc = pool_impl.__mut_source__.splitlines()
+            src = allsrc[code.co_firstlineno - 1: code.co_firstlineno + 200]
+            start = code.co_firstlineno
+        _TICK_LINES[key] = {start + i: l.strip() for i, l in enumerate(src)}
+    return _TICK_LINES[key]
 
 
 class BackendError(Exception):
@@ -153,6 +176,7 @@ class World:
         self.phantom_blocks: Dict[str, int] = {}  # pending_conns leaked by a failed transfer
         self.pruned_all = False
         self.orphans = set()
+        self.tick_log: List[str] = []
         self.seen_handles: Dict[int, int] = {}
         self.hist: Dict[str, int] = {}
 
@@ -586,7 +610,10 @@ class Runner:
                 self.resumed_req = ran_task._req
             if self.on_step is not None:
                 pre = self.on_step.before_handle(self, h, ran_task)
-            w.loop.run_handle(h)
+            if ran_task is None and w.loop.handle_name(h) == '_tick':
+                self.run_tick_traced(h)
+            else:
+                w.loop.run_handle(h)
         elif a[0] == 'acq':
             w.act_acquire(a[1])
         elif a[0] == 'rel':
@@ -612,6 +639,55 @@ class Runner:
         else:
             raise ValueError(' '.join(a))
         return ran_task, pre
+
+    def run_tick_traced(self, h):
+        """Runs a `_tick` handle and records WHICH branch of `_tick` the real code took (read off
+        the executed source lines) together with how the demand compared with the capacity at
+        that moment; the hang classifier names a hang after the ticks that failed to act."""
+        w = self.w
+        pool = w.pool
+        total = sum(b.count_waiters() + b.conn_acquired_num for b in pool._blocks.values())
+        cmp_ = '<' if total < pool._max_capacity else ('=' if total == pool._max_capacity else '>')
+        seen = set()
+        code = type(pool)._tick.__code__
+        lines = _tick_source()
+
+        def tracer(frame, event, arg):
+            if frame.f_code is not code:
+                return None
+
+            def local(fr, ev, ar):
+                if ev == 'line':
+                    seen.add(lines.get(fr.f_lineno, ''))
+                return local
+            return local
+        old = sys.gettrace()
+        sys.settrace(tracer)
+        try:
+            w.loop.run_handle(h)
+        finally:
+            sys.settrace(old)
+        if w.loop.errors:
+            br = 'raised'
+        elif any(x.startswith('first_block') for x in seen) or \
+                ('self._is_starving = False' in seen and not any(x.startswith('for block in self._blocks') for x in seen)):
+            br = 'single'
+        elif any(x.startswith('for block in tuple(self._blocks.values())') for x in seen):
+            br = 'modeD-rescue' if any('self._should_free_conn(block)' in x for x in seen) else 'modeD'
+        elif 'capacity_left = self._max_capacity' in seen:
+            br = 'modeC'
+        elif 'self._maybe_rebalance()' in seen:
+            br = 'early-exit-rebalance'
+        elif any(x.startswith('if self._cur_capacity >= self._max_capacity') for x in seen):
+            br = 'early-exit-noop'
+        elif any(x.startswith('if not total_nwaiters') for x in seen):
+            br = 'no-demand'
+        else:
+            br = 'other'
+        if br == 'modeD-rescue':
+            br = 'modeD'
+        # how demand compared with capacity only matters for the early exit (`total_nwaiters < max`)
+        w.tick_log.append(f'{br}[{cmp_}]' if br.startswith('early-exit') else br)
 
     def _after(self, a, action, ran_task, pre):
         w = self.w
@@ -649,6 +725,9 @@ class Runner:
                                    f'{w.pool._blocks[cb["to_block"]].pending_conns if cb["to_block"] in w.pool._blocks else "?"}'
                                    f' with no connect in flight'))
         w.harvest()
+        if getattr(self, 'quiet', False):
+            w.loop.errors.clear()
+            return
         rq = getattr(self, 'resumed_req', None)
         self.resumed_req = None
         if a[0] == 'run' and rq is not None and rq.state == 'waiting' and not rq.task.done():
@@ -940,7 +1019,8 @@ def stuck_signature(w: World, stuck_ids) -> str:
                 feats.add('has-conns')
         elif b.conn_stack:
             feats.add('idle-elsewhere')
-    return ','.join(sorted(feats))
+    ticks = '+'.join(sorted(set(w.tick_log[-30:]))) or 'none'
+    return ','.join(sorted(feats)) + ';ticks=' + ticks
 
 
 def describe(w: World) -> dict:
@@ -1232,6 +1312,8 @@ import json as _json
 import os as _os
 import random as _random
 
+import time
+
 from lib import core
 
 C15_KEYS = {
@@ -1251,7 +1333,61 @@ KEY_RENAME = {'loop-exception': 'tick-raised'}
 def gen_cfg(rng, i, ctx) -> Cfg:
     cfg = Cfg(rng, small=(i % 5 == 0), allow_dfail=True)
     cfg.pall = (i % 23 == 7)
+    cfg.shape = None
+    if i % 19 == 5:
+        # the whole capacity sits idle in databases nobody asks for any more, then exactly
+        # `max` requests arrive on other databases: demand == capacity at tick time
+        cfg.shape = 'idle-then-new'
+        cfg.max = rng.choice([1, 2, 2, 3])
+        cfg.ndb = 2 * cfg.max
+        cfg.nreq = 2 * cfg.max
+        cfg.pall = False
+        cfg.p_prune = 0.0
+        cfg.p_cfail = 0.0
+        cfg.p_3d = 0.0
+        cfg.p_dfail = 0.0
+        cfg.p_discard = 0.0
+        cfg.gc = 120.0
+        cfg.fifo = True
     return cfg
+
+
+def scripted_idle_then_new(r: 'Runner', rng):
+    """prefix of the 'idle-then-new' shape (see gen_cfg): returns when the new requests are queued"""
+    w, cfg = r.w, r.cfg
+
+    def settle_all():
+        # run everything that is ready, answer every callback positively
+        for _ in range(400):
+            if w.loop.ready_handles():
+                r.apply('run 0')
+            elif any(cb['resolved'] is None for cb in w.conn_cbs):
+                r.apply('cdone 0 ok')
+            elif any(cb['resolved'] is None for cb in w.disc_cbs):
+                r.apply('ddone 0 ok')
+            else:
+                return
+    for k in range(cfg.max):
+        r.apply(f'acq d{k}')
+        settle_all()
+    for rq in list(w.reqs):
+        if rq.state == 'holding':
+            r.apply(f'rel {rq.id} 0')
+    settle_all()
+    # let the pending tick(s) fire while nobody is acquiring (they do not re-arm)
+    for _ in range(3):
+        ts = [t for t in w.loop.pending_timers() if getattr(t._callback, '__name__', '') == '_tick']
+        if not ts:
+            break
+        r.apply('timer')
+        settle_all()
+    order = list(range(cfg.max, 2 * cfg.max))
+    rng.shuffle(order)
+    for k in order:
+        r.apply(f'acq d{k}')
+    for _ in order:
+        if w.loop.ready_handles():
+            r.apply('run 0')
 
 
 def one_schedule(seed_str, cfg: Cfg, with_tie=True):
@@ -1261,7 +1397,11 @@ def one_schedule(seed_str, cfg: Cfg, with_tie=True):
     if tie is not None:
         tie.attach(r)
     try:
-        if getattr(cfg, 'pall', False):
+        if getattr(cfg, 'shape', None) == 'idle-then-new':
+            scripted_idle_then_new(r, rng)
+            cfg.fair_only = True
+            res = r.run_random(rng)
+        elif getattr(cfg, 'pall', False):
             # own stream: chaos, then prune_all_connections, then drain
             n = rng.randint(5, max(6, cfg.chaos_steps))
             while r.w.nstep < n:
@@ -1287,7 +1427,8 @@ def run_check(ctx: 'core.Ctx', which: str):
         'C15': ['EdbVerif.C15.inv_init', 'EdbVerif.C15.inv_step', 'EdbVerif.C15.inv_run',
                 'EdbVerif.C15.usage_exact', 'EdbVerif.C15.capacity', 'EdbVerif.C15.own_step',
                 'EdbVerif.C15.own_run', 'EdbVerif.C15.no_double_lend', 'EdbVerif.C15.lent_belongs',
-                'EdbVerif.C15.idle_is_free', 'EdbVerif.C15.block_counters'],
+                'EdbVerif.C15.idle_is_free', 'EdbVerif.C15.block_counters',
+                'EdbVerif.C15.own_breaks_after_prune_all', 'EdbVerif.C15.no_leak_breaks_after_aborted_prune'],
         'C16': ['EdbVerif.C16.no_lost_wakeup', 'EdbVerif.C16.waiters_consistent', 'EdbVerif.C16.waiters_step',
                 'EdbVerif.C16.abort_all', 'EdbVerif.C16.aborted_request_completes', 'EdbVerif.C16.woken_empty',
                 'EdbVerif.C16.C16_partial', 'EdbVerif.C16.C16_counterexample_gc_race',
@@ -1409,6 +1550,10 @@ def run_check(ctx: 'core.Ctx', which: str):
                      {'cfg': cd, 'trace': full['trace'], 'final': full['final'], 'case': label,
                       'shrunk_prefix': len(small), 'seen_in_schedules': sigs[sig]})
 
+    exh = None
+    if not ctx.quick() and not ctx.replay:
+        exh = exhaustive(ctx, which, 75000)
+
     # ---- model correspondence
     ctx.log(f'{len(cases)} schedules, {nsteps} steps on the real pool, {len(lines)} model transitions')
     model = ctx.driver('C15', lines)
@@ -1464,7 +1609,8 @@ def run_check(ctx: 'core.Ctx', which: str):
         'requests': outcomes,
         'hang_classes': sigs,
         'oracle_keys_of_the_sibling_property_seen': others_seen,
-        'exhaustive': False,
+        'exhaustive': bool(exh) and all(x['exhausted'] for x in exh),
+        'exhaustive_scopes': exh,
         'correspondence': 'every executed handle / release call of the real Pool is mapped to a transition of '
                           'EdbVerif.Pool.step; float/clock-derived choices are passed as the environment; the '
                           'complete integer state (counters, per-block conns/stack/queue, block order, waitlist, '
@@ -1481,3 +1627,229 @@ def run_check(ctx: 'core.Ctx', which: str):
         'harness/lib/detloop.py (deterministic event loop), harness/props/pool_common.py (fake backend, ghost '
         'state, oracle, classification of handles into model transitions)',
     ]
+
+
+# =====================================================================
+# Part 6 (thorough tier): exhaustive exploration of the deterministic loop for a small
+# scope — DFS over every choice (which ready handle runs, when a request starts, when a
+# holder releases, when the backend answers, when the clock jumps to / just before the next
+# timer), states hashed to prune.  No faults, no discard, no pruning in this scope.
+# =====================================================================
+
+def _fingerprint(r: Runner) -> tuple:
+    w = r.w
+    pool = w.pool
+    loop = w.loop
+    now = loop.time()
+    canon: Dict[int, int] = {}
+
+    def cid(c):
+        return canon.setdefault(id(c), len(canon))
+    thr = max(pool._conntime_avg.avg(), pool_config.MIN_CONN_TIME_THRESHOLD)
+    horizon = now - pool._gc_interval
+    futs = {}
+    for t in w.tasks.values():
+        if not t.done():
+            for c in coro_chain(t):
+                if c.cr_code.co_name == 'try_acquire' and c.cr_frame is not None:
+                    f = c.cr_frame.f_locals.get('waiter')
+                    if f is not None and hasattr(t, '_req'):
+                        futs[id(f)] = (t._req.id, f.done())
+    blocks = []
+    for n, b in pool._blocks.items():
+        old = 0
+        for c in b.conn_stack:
+            if b.conns[c].in_stack_since > horizon:
+                break
+            old += 1
+        ra = b.nwaiters_avg
+        blocks.append((n, b.quota, b.pending_conns, b.conn_acquired_num, b.conn_waiters_num, b.suppressed,
+                       b.connect_failures_num,
+                       tuple((cid(c), st.in_use) for c, st in b.conns.items()),
+                       tuple(cid(c) for c in b.conn_stack),
+                       tuple(futs.get(id(f), ('?', f.done())) for f in b.conn_waiters),
+                       tuple(ra._hist), min(ra._pos, ra._hist_size),
+                       round(b.querytime_avg.avg(), 4), (now - b.last_connect_timestamp) < thr, old))
+    tasks = []
+    for n, t in w.tasks.items():
+        if t.done():
+            continue
+        ch = coro_chain(t)
+        names = tuple(c.cr_code.co_name for c in ch) or (w.task_kind[n],)
+        loc = ch[0].cr_frame.f_locals if ch else {}
+        extra = []
+        for k in ('block', 'from_block', 'to_block'):
+            if k in loc:
+                extra.append(loc[k].dbname)
+        for k in ('conn', 'from_conn'):
+            if k in loc and loc[k] is not None:
+                extra.append(cid(loc[k]))
+        if hasattr(t, '_req'):
+            extra.append(('req', t._req.id))
+        tasks.append((names, coro_created(t), tuple(extra)))
+    ready = []
+    for h in loop.ready_handles():
+        t = loop.handle_task(h)
+        ready.append((loop.handle_name(h), getattr(t, '_req', None).id if t is not None and hasattr(t, '_req')
+                      else (w.task_kind.get(getattr(t, '_det_id', -1)) if t is not None else None),
+                      tuple(sorted(str(x) for x in ())),))
+    timers = tuple((getattr(t._callback, '__name__', '?'), t._when <= now) for t in loop.pending_timers())
+    cbs = tuple(sorted([('c', cb['db'], cb['resolved']) for cb in w.conn_cbs] +
+                       [('d', cid(cb['conn']), cb['resolved'], cb['kind']) for cb in w.disc_cbs], key=repr))
+    reqs = tuple((q.state, cid(q.conn) if q.conn is not None else None) for q in w.reqs)
+    return (pool._cur_capacity, pool._is_starving, pool._nacquires, pool._htick is not None, pool._gc_requests,
+            tuple(b.dbname for b in pool._new_blocks_waitlist), tuple(b.dbname for b in pool._blocks_over_quota),
+            tuple(blocks), tuple(sorted(tasks, key=repr)), tuple(sorted(ready, key=repr)), timers, cbs, reqs,
+            round(pool._conntime_avg.avg(), 4))
+
+
+def _enabled(r: Runner, assign) -> List[str]:
+    w = r.w
+    acts = []
+    hs = w.loop.ready_handles()
+    acts += [f'run {i}' for i in range(len(hs))]
+    if len(w.reqs) < len(assign):
+        acts.append(f'acq {assign[len(w.reqs)]}')
+    acts += [f'rel {q.id} 0' for q in w.reqs if q.state == 'holding']
+    acts += [f'cdone {i} ok' for i, cb in enumerate(cb for cb in w.conn_cbs if cb['resolved'] is None)]
+    acts += [f'ddone {i} ok' for i, cb in enumerate(cb for cb in w.disc_cbs if cb['resolved'] is None)]
+    ts = w.loop.pending_timers()
+    if ts and not hs:
+        acts.append('timer')
+        if ts[0]._when > w.loop.time():
+            acts.append('adv 1000000')      # "... happens just before the next timer"
+    return acts
+
+
+def explore_scope(max_cap: int, assign, node_budget: int, depth_cap: int = 90):
+    """DFS with state hashing.  Returns stats + the graph needed to find doomed states."""
+    cfg = Cfg(_random.Random(0), small=True, allow_dfail=False)
+    cfg.max = max_cap
+    cfg.ndb = 2
+    cfg.nreq = len(assign)
+    cfg.gc = 120.0
+    cfg.p_prune = cfg.p_cfail = cfg.p_3d = cfg.p_dfail = cfg.p_discard = 0.0
+    cfg.fifo = False
+    cfg.pall = False
+    cfg.shape = None
+    cd = cfg.as_dict()
+    global STEP_TIMEOUT
+    saved_timeout = STEP_TIMEOUT
+    STEP_TIMEOUT = 20.0          # long GC pauses of this process must not look like a hung section
+    seen: Dict[tuple, int] = {}
+    parent_of: List[int] = []
+    act_of: List[Optional[str]] = []
+    edges: List[List[int]] = []
+    ok_state: List[bool] = []
+    problems = []
+
+    def prefix(i: int) -> List[str]:
+        out = []
+        while i >= 0 and act_of[i] is not None:
+            out.append(act_of[i])
+            i = parent_of[i]
+        out.reverse()
+        return out
+    stack: List[tuple] = [(-1, None)]
+    schedules = 0            # maximal explored paths (leaves: repeated state / terminal / cut)
+    cut = False
+    try:
+        while stack:
+            parent, act = stack.pop()
+            pre = prefix(parent) if parent >= 0 else []
+            r = Runner(Cfg.from_dict(dict(cd)))
+            r.quiet = True
+            try:
+                for a in pre:
+                    r.apply(a)
+                r.quiet = False
+                if act is not None:
+                    r.apply(act)
+                if r.dead:
+                    continue
+                fp = _fingerprint(r)
+                if fp in seen:
+                    if parent >= 0:
+                        edges[parent].append(seen[fp])
+                    schedules += 1
+                    continue
+                idx = len(parent_of)
+                seen[fp] = idx
+                parent_of.append(parent)
+                act_of.append(act)
+                edges.append([])
+                if parent >= 0:
+                    edges[parent].append(idx)
+                for pk, what, _st in r.w.problems:
+                    problems.append((pk, what, pre + ([act] if act else [])))
+                done = len(r.w.reqs) == len(assign) and all(q.state in ('released', 'failed') for q in r.w.reqs)
+                ok_state.append(done)
+                if done:
+                    schedules += 1
+                    continue
+                if len(seen) >= node_budget or len(pre) + 1 >= depth_cap:
+                    cut = True
+                    schedules += 1
+                    continue
+                acts = _enabled(r, assign)
+                if not acts:
+                    schedules += 1
+                    continue
+                for a in reversed(acts):
+                    stack.append((idx, a))
+            finally:
+                r.w.close()
+    finally:
+        STEP_TIMEOUT = saved_timeout
+    prefix_of = None
+    # doomed = cannot reach a state in which every request was served
+    n = len(parent_of)
+    rev = [[] for _ in range(n)]
+    for a, outs in enumerate(edges):
+        for b in outs:
+            rev[b].append(a)
+    good = [False] * n
+    work = [i for i in range(n) if ok_state[i]]
+    for i in work:
+        good[i] = True
+    while work:
+        x = work.pop()
+        for y in rev[x]:
+            if not good[y]:
+                good[y] = True
+                work.append(y)
+    doomed = [i for i in range(n) if not good[i]] if not cut else []
+    return {'cfg': cd, 'assign': list(assign), 'max': max_cap, 'states': n, 'schedules': schedules,
+            'edges': sum(len(e) for e in edges), 'exhausted': not cut, 'doomed': len(doomed),
+            'doomed_prefix': min((prefix(i) for i in doomed), key=len) if doomed else None,
+            'problems': problems}
+
+
+def exhaustive(ctx, which: str, node_budget_total: int):
+    scopes = [(m, a) for m in (1, 2) for a in (
+        ('d0',), ('d0', 'd0'), ('d0', 'd1'), ('d0', 'd0', 'd0'), ('d0', 'd0', 'd1'), ('d0', 'd1', 'd0'),
+        ('d0', 'd1', 'd1'))]
+    out = []
+    mine = C15_KEYS if which == 'C15' else C16_KEYS
+    for m, a in scopes:
+        t0 = time.time()
+        # 1-2 requests: exhausted (largest scope ~50 000 states); 3 requests: capped
+        st = explore_scope(m, a, node_budget_total if len(a) <= 2 else node_budget_total // 3)
+        st['wall_s'] = round(time.time() - t0, 1)
+        for pk, what, prefix in st['problems']:
+            k2 = KEY_RENAME.get(pk, pk)
+            if pk in mine or (pk.startswith('task-exception:') and which == 'C16'):
+                ctx.fail(k2, what + ' [exhaustive scope]', {'cfg': st['cfg'], 'trace': prefix, 'case': f'exh:{m}:{a}'})
+        if which == 'C16' and st['doomed']:
+            full = run_trace(st['cfg'], st['doomed_prefix'], drain_seed=1, skip_invalid=True)
+            if full['stuck']:
+                ctx.fail('stuck:' + full['stuck_sig'],
+                         f'exhaustive scope max={m} requests={list(a)}: {st["doomed"]} reachable states from which NO '
+                         f'schedule serves every request (shortest witness attached)',
+                         {'cfg': st['cfg'], 'trace': full['trace'], 'final': full['final'], 'case': f'exh:{m}:{a}'})
+        st.pop('problems')
+        st.pop('cfg')
+        out.append(st)
+        ctx.log(f'exhaustive max={m} reqs={list(a)}: {st["states"]} states, {st["schedules"]} schedules, '
+                f'exhausted={st["exhausted"]}, doomed={st["doomed"]} ({st["wall_s"]}s)')
+    return out
